@@ -72,8 +72,11 @@ def main():
         meta["files"] = touched
         if any(f.endswith("_test.go") for f in touched):
             raise SystemExit("patch touches test files")
-        rcb, outb, _ = run("go build ./... && go vet ./... ", wt)
-        meta["ran"].append({"cmd": "go build ./... && go vet ./...", "tree": "patched", "exit": rcb})
+        rcb, outb, _ = run("go build ./... ", wt)
+        meta["ran"].append({"cmd": "go build ./...", "tree": "patched", "exit": rcb})
+        # go vet is recorded, not required: the baseline suite runs with -vet=off
+        rcv, _, _ = run("go vet ./... ", wt)
+        meta["ran"].append({"cmd": "go vet ./...", "tree": "patched", "exit": rcv})
         rc1, out1, t1 = run(cmd, wt, 400)
         meta["ran"].append({"cmd": cmd, "tree": "patched", "exit": rc1, "s": round(t1, 1), "tail": out1[-600:]})
         os.remove(demo_path)
